@@ -1,9 +1,11 @@
 package props
 
 import (
+	"bytes"
 	"fmt"
 	"strings"
 
+	"github.com/reactivego/ivg"
 	"github.com/reactivego/ivg/decode"
 	"verif/gen"
 	"verif/mc"
@@ -45,7 +47,7 @@ func init() {
 			unit := c13Units(w.Tier)[u]
 			st := &c13State{}
 			st.ps.LenientMIDOrder = true
-			var hist byteHist
+			hist := &byteHistory
 			unit.Each(func(b []byte) bool {
 				hist.begin(w, b, unit.Name)
 				c13Check(w, st, b, unit.Name)
@@ -62,15 +64,18 @@ func init() {
 	})
 }
 
+// c13Canary: the smallest graphic, no metadata chunks, no instructions
+var c13Canary = append(append([]byte{}, gen.Magic...), 0x00)
+
 type c13State struct {
-	rd rec.Dest
-	ps ref.Parser
+	rd, rdc rec.Dest
+	ps      ref.Parser
 }
 
 func c13Check(w *mc.W, st *c13State, b []byte, unit string) {
 	w.Eval()
 	p := st.ps.Parse(b)
-	histOK = p.MetaOK
+	setHist(p.MetaOK, p.HasVB, p.HasPal, p.Reason)
 	if p.MIDOrder {
 		w.Skip()
 		return
@@ -112,6 +117,23 @@ func c13Check(w *mc.W, st *c13State, b []byte, unit string) {
 		}
 	} else if _, ok := verr.(decode.DecodeError); !ok {
 		w.Fail("decodeviewbox-errtype", fmt.Sprintf("input %s: DecodeViewBox error %T", hexShort(b), verr), mkBytesCase(b, unit))
+	}
+	// defaults after anything: right after this input — accepted or rejected at whatever point — a
+	// graphic without metadata chunks gets the default viewBox and the default palette (a decoder
+	// that recycles its metadata must not let one input's chunks leak into the next decode)
+	if !bytes.Equal(b, c13Canary) {
+		st.rdc.ResetLog()
+		cerr, cpnc, _ := safeDecode(&st.rdc, c13Canary)
+		want := rec.Call{M: rec.MReset, VB: ivg.DefaultViewBox, Pal: &ivg.DefaultPalette}
+		cvb, cverr := decode.DecodeViewBox(c13Canary)
+		if cpnc != nil || cerr != nil || len(st.rdc.Calls) != 1 || !st.rdc.Calls[0].Equal(&want) || cverr != nil || cvb != ivg.DefaultViewBox {
+			got := "nothing"
+			if len(st.rdc.Calls) > 0 {
+				got = st.rdc.Calls[0].String()
+			}
+			w.Fail("defaults-after-another-input", fmt.Sprintf("a graphic without metadata chunks decoded right after input %s: Decode err=%v delivers %s, DecodeViewBox=%v err=%v; the defaults are due", hexShort(b), cerr, got, cvb, cverr),
+				mkBytesCase(b, unit)) // replaying the input runs this step again
+		}
 	}
 	h := mc.NewHasher()
 	h.Bool(p.MetaOK)
